@@ -552,7 +552,7 @@ func substParams(e *Expr, args []*Expr) *Expr {
 	if (e.Op == "call" || e.Op == "invoke") && theProgram != nil {
 		return canonCall(&Expr{Op: e.Op, Name: e.Name, Args: na, Val: e.Val})
 	}
-	return &Expr{Op: e.Op, Name: e.Name, Args: na, Val: e.Val}
+	return reorder(&Expr{Op: e.Op, Name: e.Name, Args: na, Val: e.Val})
 }
 
 // theProgram: the program being analysed (for re-canonicalisation after substitution)
